@@ -195,6 +195,23 @@ def check(case, out):
                          f"{op} at u={u}: result {tuple(map(str, got))}, op(A(u),B(u)) = {tuple(map(str, want))} "
                          f"[A: U={list(map(str, a.U))} P={a.P} w={a.w}; B: U={list(map(str, b.U))} P={b.P} w={b.w}; s={fs}]")
                 return
+    # aliasing: the result owns its state - changing it (also in place, for numpy points) leaves the operands alone
+    try:
+        for pt in R.ctrlpoints:
+            if isinstance(pt, np.ndarray):
+                pt += 1
+        if R.degree < 5:
+            R.degree_increase(1)
+        zmid = (R.knotvector[0] + R.knotvector[-1]) / 2
+        if R.knotvector.mult(zmid) < R.degree + 1:
+            R.knot_insert([zmid])
+    except Exception as exc:
+        if not lib.from_library(exc):
+            raise
+    if lib.snapshot(A) != snapA or (binop and lib.snapshot(B) != snapB):
+        out.fail("result-shares-state-with-operand", klass, f"{op}: mutating the result changed an operand")
+        return
+    R = fns[op]()
     # the library's own evaluation of the result agrees at one point (keeps C01 and C08 tied together)
     u0 = (bk[0] + bk[1]) / 2
     try:
